@@ -225,14 +225,16 @@ class Generated:
             funcs.pop(n)
         # functions applied to the instantiated dispatcher (renaming and the like): opaque post-processing
         holders = [gen.node] + list(funcs.values())
-        inst_vars = set()
+        import builtins
+
         for h in holders:
+            # per function: the locals that hold the instantiated dispatcher, and what is applied to them there
+            inst_vars = set()
             for st in ast.walk(h):
                 if isinstance(st, ast.Assign) and isinstance(st.value, ast.Call) and isinstance(st.value.func, ast.Name) and st.value.func.id in instantiators:
                     inst_vars |= {t.id for t in st.targets if isinstance(t, ast.Name)}
-        for h in holders:
             for c in ast.walk(h):
-                if isinstance(c, ast.Call) and isinstance(c.func, ast.Name) and c.func.id not in instantiators:
+                if isinstance(c, ast.Call) and isinstance(c.func, ast.Name) and c.func.id not in instantiators and not hasattr(builtins, c.func.id):
                     feeds = [a for a in list(c.args) + [k.value for k in c.keywords] if (isinstance(a, ast.Name) and a.id in inst_vars) or (isinstance(a, ast.Call) and isinstance(a.func, ast.Name) and a.func.id in instantiators)]
                     if feeds:
                         nm = c.func.id
